@@ -163,11 +163,12 @@ var _ time.Time // lemmas below name package time
 //@   modifies data.Cookie, data.Algo, data.Server, data.Port
 //@   allocates
 //@   ensures result == nil ==> len(data.Cookie) >= old(len(data.Cookie)) && sameslice(data.C2sKey, old(data.C2sKey)) && sameslice(data.S2cKey, old(data.S2cKey))
+// The exported keys are 32 bytes each (AES-SIV-CMAC-256): checked against a model of the TLS exporter.
 //@ func ExportKeys
-//@   trusted
 //@   requires data != nil
 //@   modifies data.C2sKey, data.S2cKey
 //@   allocates
+//@   ensures keylen: result == nil ==> lenof(data.C2sKey) == 32 && lenof(data.S2cKey) == 32
 //@ func logData
 //@   trusted
 
@@ -180,12 +181,20 @@ var _ time.Time // lemmas below name package time
 //@   callsite exchangeDataTLS 0 requires freshData(f.data)
 //@   callsite exchangeDataQUIC 0 requires freshData(f.data)
 //@   ensures accepted: result == nil ==> len(f.data.Cookie) >= 1 && f.data.Algo == 15
+//@   ensures keys: result == nil ==> len(f.data.C2sKey) == 32 && len(f.data.S2cKey) == 32
 
 // A failed exchange leaves nothing behind that a later request would use; a successful call hands out one cookie,
 // which leaves the pool (single use).
+// Representation invariant of the client's key-exchange state: whenever the pool holds a cookie, the two keys are the
+// 32-byte keys of the exchange it came from (VerifKeysOK, a ghost accessor for contracts in other packages).
 //@ func (*Fetcher).FetchData
 //@   noframe
 //@   requires f != nil && f.Log != nil
+//@   requires inv: f.VerifKeysOK()
+//@   modifies *f
+//@   allocates
+//@   ensures keys: result1 == nil ==> len(result0.C2sKey) == 32 && len(result0.S2cKey) == 32 && len(f.data.C2sKey) == 32 && len(f.data.S2cKey) == 32
+//@   ensures inv: f.VerifKeysOK()
 //@   ensures failclean: result1 != nil ==> len(f.data.Cookie) == 0
 //@   ensures handout: result1 == nil ==> len(result0.Cookie) >= 1 && len(f.data.Cookie) == len(result0.Cookie)-1
 //@   ensures exchanged: result1 == nil && old(len(f.data.Cookie)) == 0 ==> result0.Algo == 15
@@ -202,6 +211,15 @@ var _ time.Time // lemmas below name package time
 // VerifPool is a ghost accessor (compiled only with the tag "verif"): it lets contracts in other packages
 // name the client's cookie pool, which is an unexported field.
 func (f *Fetcher) VerifPool() *[][]byte { return &f.data.Cookie }
+
+// VerifKeysOK is a ghost accessor (compiled only with the tag "verif") for the representation invariant of the
+// key-exchange state: a non-empty pool comes with the two 32-byte keys of its exchange.
+func (f *Fetcher) VerifKeysOK() bool {
+	return len(f.data.Cookie) == 0 || (len(f.data.C2sKey) == 32 && len(f.data.S2cKey) == 32)
+}
+
+// VerifKeys32 (ghost accessor): both keys are 32 bytes long.
+func (f *Fetcher) VerifKeys32() bool { return len(f.data.C2sKey) == 32 && len(f.data.S2cKey) == 32 }
 
 func verifServerCookieRoundTrip(c *ServerCookie, q *ServerCookie) error {
 	b := c.Encode()
